@@ -10,7 +10,7 @@ from harness.report import Report
 from harness.terms import jkey
 
 DATES = [["str", "%04d-02-28" % y] for y in (2019, 2020, 2021, 2022, 2023, 2024, 2025)]
-TABLE = [(["date", "int", "str"], DATES + [["int", 5], ["str", "t"]]), (["bytes"], [["str", "AQL/\n"]])]
+TABLE = [(["date", "int", "str"], DATES + [["int", 5], ["str", "t"]]), (["bytes"], [["str", "AQL/\n"], ["str", "Cf8=\n"]])]
 
 
 def configs(prop, tier):
@@ -27,7 +27,11 @@ def configs(prop, tier):
     if prop == "C15":
         return [dict(MaxLen=L, Codecs=True), dict(MaxLen=min(L, 4), Codecs=True, LazyC=True)]
     if prop == "C04":
-        return [dict(MaxLen=L, Mixin='"msgpack"'), dict(MaxLen=L - 1, Mixin='"orjson"', KwFlags=True)]
+        return [dict(MaxLen=L, Mixin='"msgpack"'), dict(MaxLen=L - 1, Mixin='"orjson"', KwFlags=True),
+                dict(MaxLen=L - 1, Mixin='"msgpack"', LazyInner=True)]       # the nested class's helper packers compiled at first use
+    if prop == "C01":
+        # round trips ALONG histories: to_<format>(dialect=D) / to_dict(dialect=D) / from_* in every order on one class
+        return [dict(MaxLen=L - 1, Mixin='"msgpack"')]
     if prop == "C02":
         return [dict(MaxLen=3, LazyC=True, Mixin='"msgpack"'), dict(MaxLen=3, LazyC=True, LazyInner=True, Mixin='"orjson"')]
     if prop == "C08":
